@@ -264,4 +264,49 @@ func litestream.NewWALReaderWithOffset(ctx, rd, offset, salt1, salt2, logger) (r
   ensures [C09.resume-prev] err == nil ==> fbe32(rd, offset - (r.pageSize + 24) + 8) == salt1 && fbe32(rd, offset - (r.pageSize + 24) + 12) == salt2
   ensures [C09.resume-seed] err == nil ==> r.chksum1 == fbe32(rd, offset - (r.pageSize + 24) + 16) && r.chksum2 == fbe32(rd, offset - (r.pageSize + 24) + 20)
   ensures err != nil ==> r == nil
+
+// ---------------------------------------------------------------------------
+// C17 lock page (1 GiB boundary)
+
+pred lockPg(ps int) = sdiv(1073741824, ps) + 1
+
+func litestream.(*DB).writeLTXFromDB(db, ctx, enc, walFile, commit, pageMap) (err)
+  requires db != nil && enc != nil && 1 <= db.pageSize && db.pageSize <= 65536 && commit < 4294967295
+  requires enc_last[enc] == 0 && (forall p int :: !enc_pages[enc][p])
+  requires forall p int :: {has(pageMap, p)} has(pageMap, p) ==> 0 <= pageMap[p] && pageMap[p] < 4611686018427387904
+  modifies $heap, $alloc, enc_pages, enc_last
+  at ltx.(*Encoder).EncodePage#all assert [C17.lock-def] lockPgno == lockPg(db.pageSize)
+  at ltx.(*Encoder).EncodePage#all assert [C17.no-lock] $arg0.Pgno != lockPgno
+  at ltx.(*Encoder).EncodePage#all assert [C17.snapshot-next] $arg0.Pgno == (enc_last[enc] + 1 == lockPgno ? enc_last[enc] + 2 : enc_last[enc] + 1) && $arg0.Pgno <= commit
+  at os.(*File).ReadAt#1 assert [C17.source-wal] $recv == walFile && has(pageMap, pgno) && $arg1 == pageMap[pgno] + 24
+  at os.(*File).ReadAt#2 assert [C17.source-db] $recv == db.f && !has(pageMap, pgno) && $arg1 == (pgno - 1) * db.pageSize
+  ensures [C17.snapshot] err == nil ==> (forall p int :: {enc_pages[enc][p]} enc_pages[enc][p] <==> (1 <= p && p <= commit && p != lockPg(db.pageSize)))
+  loop 0 invariant 1 <= pgno && pgno <= commit + 1 && lockPgno == lockPg(db.pageSize) && db.pageSize == old(db.pageSize) && enc == old(enc)
+  loop 0 invariant enc_last[enc] == (pgno - 1 == lockPgno ? (pgno >= 2 ? pgno - 2 : 0) : pgno - 1)
+  loop 0 invariant forall p int :: {enc_pages[enc][p]} enc_pages[enc][p] <==> (1 <= p && p < pgno && p != lockPgno)
+
+func litestream.(*DB).writeLTXFromWAL(db, ctx, enc, walFile, prevCommit, commit, pageMap) (err)
+  requires db != nil && enc != nil && pageMap != nil && 1 <= db.pageSize && db.pageSize <= 65536 && commit < 4294967295
+  requires enc_last[enc] == 0 && (forall p int :: !enc_pages[enc][p])
+  requires forall p int :: {has(pageMap, p)} has(pageMap, p) ==> 0 <= pageMap[p] && pageMap[p] < 4611686018427387904
+  requires !has(pageMap, lockPg(db.pageSize)) && !has(pageMap, 0)     // A-C17-wal: SQLite never writes page 0 or the lock page into the WAL
+  modifies $heap, $alloc, enc_pages, enc_last
+  at ltx.(*Encoder).EncodePage#all assert [C17.lock-def] lockPgno == lockPg(db.pageSize)
+  at ltx.(*Encoder).EncodePage#all assert [C17.no-lock] $arg0.Pgno != lockPgno
+  at ltx.(*Encoder).EncodePage#all assert [C17.incremental-order] $arg0.Pgno > enc_last[enc]
+  at os.(*File).ReadAt#1 assert [C17.source-wal] $recv == walFile && has(pageMap, pgno#2) && $arg1 == pageMap[pgno#2] + 24
+  at os.(*File).ReadAt#2 assert [C17.source-db] $recv == db.f && !has(pageMap, pgno#2) && $arg1 == (pgno#2 - 1) * db.pageSize
+  loop 0 invariant fresh(arr(pgnos)) && pageMap == old(pageMap)
+  loop 0 invariant forall i int :: {pgnos[i]} 0 <= i && i < len(pgnos) ==> has(pageMap, pgnos[i]) && visited(0)[pgnos[i]]
+  loop 0 invariant forall i int, j int :: {pgnos[i], pgnos[j]} 0 <= i && i < j && j < len(pgnos) ==> pgnos[i] != pgnos[j]
+  loop 0 invariant len(pgnos) == vcount(0) && (forall p int :: {visited(0)[p]} visited(0)[p] ==> 0 <= vidx(0)[p] && vidx(0)[p] < len(pgnos) && pgnos[vidx(0)[p]] == p)
+  loop 1 invariant fresh(arr(pgnos)) && lockPgno == lockPg(db.pageSize) && prevCommit + 1 <= pgno#1 && pgno#1 <= commit + 1 && commit > prevCommit
+  loop 1 invariant forall i int :: {pgnos[i]} 0 <= i && i < len(pgnos) ==> has(pageMap, pgnos[i]) || (prevCommit < pgnos[i] && pgnos[i] < pgno#1 && pgnos[i] != lockPgno && !has(pageMap, pgnos[i]))
+  loop 1 invariant forall i int, j int :: {pgnos[i], pgnos[j]} 0 <= i && i < j && j < len(pgnos) ==> pgnos[i] != pgnos[j]
+  loop 1 invariant forall p int :: {has(pageMap, p)} has(pageMap, p) ==> (exists i int :: {pgnos[i]} 0 <= i && i < len(pgnos) && pgnos[i] == p)
+  loop 1 invariant forall p int :: {has(pageMap, p)} prevCommit < p && p < pgno#1 && p != lockPgno && !has(pageMap, p) ==> (exists i int :: {pgnos[i]} 0 <= i && i < len(pgnos) && pgnos[i] == p)
+  loop 2 invariant rangeindex < len(pgnos) && lockPgno == lockPg(db.pageSize) && len(data) == db.pageSize
+  loop 2 invariant enc_last[enc] == (rangeindex == -1 ? 0 : pgnos[rangeindex])
+  loop 2 invariant forall p int :: {enc_pages[enc][p]} enc_pages[enc][p] <==> (exists i int :: {pgnos[i]} 0 <= i && i <= rangeindex && pgnos[i] == p)
+  ensures [C17.incremental] err == nil ==> (forall p int :: {enc_pages[enc][p]} enc_pages[enc][p] <==> (has(pageMap, p) || (prevCommit < p && p <= commit && p != lockPg(db.pageSize))))
 */
